@@ -1,0 +1,60 @@
+//go:build verif
+
+package activitypub
+
+// Thin exported wrappers around unexported helpers, compiled only with -tags verif.
+// They let the verification harness drive the helpers directly; they add no behaviour.
+
+import (
+	"bytes"
+
+	"github.com/valyala/fastjson"
+)
+
+func VerifStripFragment(u string) string { return stripFragment(u) }
+
+func VerifStripScheme(u string) string { return stripScheme(u) }
+
+func VerifIrisEqual(i1, i2 IRI, checkScheme bool) bool { return irisEqual(i1, i2, checkScheme) }
+
+func VerifEscapeQuote(s string) string { return escapeQuote(s) }
+
+func VerifUnescape(b []byte) []byte { return unescape(b) }
+
+func VerifStringBytes(s []byte, escapeHTML bool) []byte {
+	e := bytes.Buffer{}
+	stringBytes(&e, s, escapeHTML)
+	return e.Bytes()
+}
+
+func VerifRemoveFromCollection(col ItemCollection, items ...Item) ItemCollection {
+	return removeFromCollection(col, items...)
+}
+
+func VerifRemoveFromAudience(a *Activity, items ...Item) error { return removeFromAudience(a, items...) }
+
+func VerifGobEncodeItem(it Item) ([]byte, error) { return gobEncodeItem(it) }
+
+func VerifGobDecodeItem(data []byte) (Item, error) { return gobDecodeItem(data) }
+
+func VerifGobEncodeItems(col ItemCollection) ([]byte, error) { return gobEncodeItems(col) }
+
+func VerifGobDecodeItems(data []byte) (ItemCollection, error) { return gobDecodeItems(data) }
+
+func VerifGobDecodeObjectAsMap(data []byte) (map[string][]byte, error) {
+	return gobDecodeObjectAsMap(data)
+}
+
+func VerifAsIRI(val *fastjson.Value) (IRI, bool) { return asIRI(val) }
+
+func VerifCopyAllItemProperties(to, from Item) (Item, error) { return copyAllItemProperties(to, from) }
+
+func VerifNotEmptyObject(o *Object) bool { return notEmptyObject(o) }
+
+func VerifNotEmptyLink(l *Link) bool { return notEmptyLink(l) }
+
+func VerifNotEmptyActor(a *Actor) bool { return notEmptyActor(a) }
+
+func VerifNotEmptyActivity(a *Activity) bool { return notEmptyActivity(a) }
+
+func VerifItemsNeedSwapping(i1, i2 Item) bool { return itemsNeedSwapping(i1, i2) }
